@@ -304,6 +304,26 @@ func scanInterface(c *Ctx, cr *CaseResult, which, text string, vis, hid []*flags
 				c.Check("description-and-default-are-shown-as-declared", true, "", nil, "", "")
 			}
 		}
+		if which == "help" && len(o.Choices) > 0 && o.Field().Name != "ShowHelp" && !isBoolCode(cr.Real.optCode(o)) {
+			// the declared choices, in their order, in brackets (whether or not the argument is optional)
+			ok := true
+			for _, ch := range o.Choices {
+				if ch != "" && utf8.ValidString(ch) && !strings.Contains(squashAll(text), squashAll(ch)) {
+					ok = false
+				}
+			}
+			wantList := squashAll("[" + strings.Join(o.Choices, "|") + "]")
+			if utf8.ValidString(wantList) && !strings.Contains(wantList, "%") {
+				ok = ok && strings.Contains(squashAll(text), wantList)
+			}
+			m := map[string]interface{}(nil)
+			if !ok {
+				m = in(o)
+				m["declared_choices"] = o.Choices
+				m["optional_argument"] = o.OptionalArgument
+			}
+			c.Check("choices-are-listed", ok, "C16:choices-missing", m, "absent (blanks and hyphens apart): ["+strings.Join(o.Choices, "|")+"]", "listed beside the option")
+		}
 		if key := envKeys[o]; key != "" && utf8.ValidString(key) && !strings.ContainsAny(key, "%\\-") {
 			// the environment variable, with the env-namespaces of all enclosing levels: in the help beside
 			// a description, in the man page wherever a default is shown
